@@ -97,7 +97,11 @@ pub struct FaultRng {
 
 /// Error codes a generator may report: rand_core custom / internal codes, and raw OS errnos including the
 /// "transient" ones (EINTR 4, EAGAIN 11 / 35) that retry loops like to swallow.
+#[cfg(not(feature = "rngstd"))]
 pub const FAULT_CODES: [u32; 10] = [Error::CUSTOM_START + 7, Error::INTERNAL_START + 1, 1, 4, 5, 11, 35, 38, (1 << 31) - 1, u32::MAX];
+/// with rand_core/std: 0 stands for a boxed error that has no code at all
+#[cfg(feature = "rngstd")]
+pub const FAULT_CODES: [u32; 11] = [Error::CUSTOM_START + 7, 0, Error::INTERNAL_START + 1, 1, 4, 5, 11, 35, 38, (1 << 31) - 1, u32::MAX];
 
 impl FaultRng {
     pub fn new(script: &[u8], fail_at: usize, kind: FaultKind) -> FaultRng {
@@ -133,7 +137,12 @@ impl RngCore for FaultRng {
                     self.inner.try_fill_bytes(out)?;
                 }
             }
-            return Err(Error::from(NonZeroU32::new(self.code).unwrap()));
+            #[cfg(feature = "rngstd")]
+            if self.code == 0 {
+                // a boxed std error without a numeric code (what a failing OS generator reports under std)
+                return Err(Error::new(std::io::Error::new(std::io::ErrorKind::Other, "FaultRng: boxed error without code")));
+            }
+            return Err(Error::from(NonZeroU32::new(self.code.max(1)).unwrap()));
         }
         self.inner.try_fill_bytes(out)
     }
